@@ -5,6 +5,7 @@ import (
 	"go/ast"
 	"go/token"
 	"go/types"
+	"strings"
 )
 
 // assignedVars collects local variables assigned (not declared) in the nodes.
@@ -17,6 +18,11 @@ func (x *Exec) assignedVars(nodes ...ast.Node) []*types.Var {
 			case *ast.SelectorExpr:
 				if _, ok := x.info().Selections[t]; !ok {
 					return
+				}
+				if tv, ok := x.info().Types[t.X]; ok && tv.Type != nil {
+					if _, isPtr := tv.Type.Underlying().(*types.Pointer); isPtr {
+						return // a write through a pointer changes the heap, not the variable
+					}
 				}
 				e = t.X
 				continue
@@ -87,6 +93,16 @@ func (x *Exec) havocLoop(st *State, nodes ...ast.Node) {
 	}
 	eff := x.p.effectsOfNodes(x.cur().fi, x.info(), nodes...)
 	x.applyEffects(st, eff, nil, nil)
+	// ghost counters and channel ghosts may change in any loop that makes calls
+	for _, k := range sortedKeys(st.ghost) {
+		st.ghost[k] = x.fresh("ghost."+k, SInt)
+	}
+	for _, k := range sortedKeys(st.heaps) {
+		if strings.HasPrefix(k, "ghost$sent") {
+			h := st.heaps[k]
+			st.heaps[k] = x.fresh(k+"'", h.Sort)
+		}
+	}
 }
 
 // applyEffects havocs the heaps named by eff. Cells listed in locs are
@@ -105,7 +121,7 @@ func (x *Exec) applyEffects(st *State, eff *Effects, locs []modLoc, elems []modE
 	}
 	for _, name := range sortedKeys(eff.Writes) {
 		elem := eff.Writes[name]
-		if x.hasMod && x.spec == 0 {
+		if x.hasMod && x.spec == 0 && !x.modHeaps[name] {
 			// Dafny-style loop/call frame: cells allocated before the unit's
 			// entry and not named by its modifies clause keep their entry value.
 			entry := x.frames[0].entry
@@ -124,7 +140,7 @@ func (x *Exec) applyEffects(st *State, eff *Effects, locs []modLoc, elems []modE
 				for _, m := range me {
 					for _, h := range m.heaps {
 						if h == hname {
-							cs = append(cs, Or(Lt(r, slBase(m.sl)), Ge(r, Add(slBase(m.sl), slLen(m.sl)))))
+							cs = append(cs, Or(Lt(r, slBase(m.sl)), Ge(r, Add(slBase(m.sl), slCap(m.sl)))))
 						}
 					}
 				}
